@@ -8,7 +8,8 @@ from rt.enum import iso_key, small_graphs, ATOM_TYPES, SMALL, build_small
 
 ID = 'C01'
 RULE = ('base molecules = corpus sample + curated feature molecules + ring assemblies, partly decorated through the '
-        'editing API (groups, counter ions, isotopes) and stereo label variants; per base molecule D descriptions: '
+        'editing API (groups, counter ions, isotopes) and stereo label variants, + 414 constitutionally symmetric dimers / trimers '
+        'with every (also partial) label combination + 1311 mixtures of regular rings, chains and ions; per base molecule D descriptions: '
         're-description transformer (new sparse/colliding numbers, shuffled atom+bond insertion, stereo re-attached), '
         "the library's random-order writer in styles r/ra/rA/rh re-read, and RDKit random kekule spellings re-read; "
         'oracle: str/==/hash equal across descriptions after kekule();thiele(); a case is non-trivial and distinct by '
@@ -21,11 +22,13 @@ ASSUMPTIONS = ['CachedMethods compatibility shim (DESIGN.md section 1)',
 CONFIG = {
     'quick': {'shards': 16, 'budget_s': 100, 'n_corpus': 1100, 'n_ring': 160, 'k_redescr': 3, 'k_writer': 3, 'k_rdkit': 2,
               'floors': {'evaluations': 4000, 'distinct_nontrivial': 600, 'descr.redescribe': 1500,
-                         'descr.writer': 1500, 'descr.rdkit': 500, 'small.graphs': 3000}, 'exhaustive_subspaces': ['labelled connected graphs <= 4 atoms (see rt/enum.py SMALL)']},
+                         'descr.writer': 1500, 'descr.rdkit': 500, 'small.graphs': 3000, 'base.mixture': 1000,
+                         'base.symmetric-dimer': 300, 'base.partially-labelled': 100}, 'exhaustive_subspaces': ['labelled connected graphs <= 4 atoms (see rt/enum.py SMALL)']},
     'thorough': {'shards': 16, 'budget_s': 1100, 'n_corpus': 4200, 'n_ring': 3000, 'k_redescr': 8, 'k_writer': 8,
                  'k_rdkit': 6,
                  'floors': {'evaluations': 40000, 'distinct_nontrivial': 3000, 'descr.redescribe': 15000,
-                            'descr.writer': 15000, 'descr.rdkit': 5000, 'small.graphs': 50000}, 'exhaustive_subspaces': ['labelled connected graphs <= 5 atoms (see rt/enum.py SMALL)']},
+                            'descr.writer': 15000, 'descr.rdkit': 5000, 'small.graphs': 50000, 'base.mixture': 1000,
+                            'base.symmetric-dimer': 300, 'base.partially-labelled': 100}, 'exhaustive_subspaces': ['labelled connected graphs <= 5 atoms (see rt/enum.py SMALL)']},
 }
 WRITER_SPECS = ['r', 'ra', 'rA', 'rh', 'rAa']
 
@@ -130,7 +133,7 @@ def check_base(ctx, tag, src, m, cfg, rng):
         ctx.count('descr.writer')
         compare(ctx, 'writer', m, other, src, 'spec=%s text=%s' % (spec, text))
     # (c) another toolkit's spellings
-    if tag in ('corpus', 'special') and cfg['k_rdkit'] and _rdkit_can_express(m, ctx):
+    if tag in ('corpus', 'special', 'symmetric-dimer', 'mixture') and cfg['k_rdkit'] and _rdkit_can_express(m, ctx):
         for text in _rdkit_spellings(src, cfg['k_rdkit'], rng):
             try:
                 other = smiles(text)
@@ -155,6 +158,12 @@ def bases(ctx, cfg):
     for k, (s, _) in enumerate(G.special()):
         if ctx.mine(k):
             yield 'special', s
+    for k, s in enumerate(G.symmetric_dimers()):
+        if ctx.mine(k):
+            yield 'symmetric-dimer', s
+    for k, s in enumerate(G.mixtures()):
+        if ctx.mine(k):
+            yield 'mixture', s
 
 
 def worker(ctx):
@@ -173,6 +182,11 @@ def worker(ctx):
             ctx.count('base.unparsable')
             continue
         check_base(ctx, tag, s, m, cfg, rng)
+        if tag in ('symmetric-dimer', 'mixture'):
+            ctx.count('base.' + tag)
+            if tag == 'symmetric-dimer' and len({a.stereo is None for _, a in m.atoms() if _ in m.stereogenic_tetrahedrons or _ in m.stereogenic_allenes}) == 2:
+                ctx.count('base.partially-labelled')
+            continue
         # decorated variant (not comparable with the source string any more -> tag 'decorated')
         if rng.random() < .5:
             try:
